@@ -33,6 +33,16 @@ def cases(res):
     for ip, rt in ((0, 2), (1, 2), (3, 1), (7, 2), (8, 1), (15, 2), (16, 1), (-1, 1)):
         add(rng.choice([9, 18, 26, 35]), {"intra_period_length": ip, "intra_refresh_type": rt, "recon_enabled": 1,
                                            "hierarchical_levels": rng.choice([3, 4])}, ["--pts", "x3"])
+    # intra periods that cut mini-GOPs short at every offset (open and closed GOP): the intra picture then sits in a partial
+    # mini-GOP whose pictures must still each be shown exactly once
+    ips = [8, 11, 13, 20, 29] if quick else [2, 4, 5, 8, 9, 10, 11, 12, 13, 14, 20, 21, 27, 29, 30, 40]
+    for ip in ips:
+        for rt in (1, 2):
+            for hl in ((4,) if quick else (2, 3, 4, 5)):
+                if hl == 3 and rt == 2 and ip < 9:
+                    continue                      # recorded finding (C19): stalls at <= 2 logical processors
+                add(40 if quick else rng.choice([40, 49, 57]), {"intra_period_length": ip, "intra_refresh_type": rt, "hierarchical_levels": hl,
+                                                                 "recon_enabled": 1, "logical_processors": 4}, ["--pts", "x3"])
     for lad in (0, 1, 17, 33):
         add(rng.choice([12, 20, 40]), {"look_ahead_distance": lad, "enable_tpl_la": rng.choice([0, 1]), "recon_enabled": 1})
     for hl in (3, 4):
@@ -71,6 +81,8 @@ def run(res):
                           key={"kind": "incomplete", "hierarchical_levels": r["case"]["sets"].get("hierarchical_levels", 4),
                                "enable_overlays": int(r["case"]["sets"].get("enable_overlays", 0)),
                                "intra_refresh_type": int(r["case"]["sets"].get("intra_refresh_type", 2)),
+                               "intra_period_length": int(r["case"]["sets"].get("intra_period_length", -2)),
+                               "crashed": int(r["rc"] in (-11, 139, -6, 134)),
                                "logical_processors": r["case"]["sets"].get("logical_processors")})
             continue
         b.add("Session", stream.session_events(r), r["desc"])
